@@ -1,8 +1,14 @@
 /-
   C16 — cycle collection terminates and costs time linear in the graph, for every shape.
   Cost is counted in `trace()` invocations (`traceCalls`) and tracer callbacks (`edgeCalls`).
+
+  Throughout, `S` is any duplicate-free list of object ids that is closed under the edges reported
+  by `trace` (`Closed g S`) — e.g. everything reachable from the candidate buffer.  The bounds
+  depend on `S.length` (objects) and `edgesOf g S` (edges) only, not on the number of paths.
 -/
 import SodiumVerif.Lemmas.GcCost
+import SodiumVerif.Lemmas.GcPhase
+import SodiumVerif.Lemmas.GcFuel
 
 namespace SodiumVerif
 namespace Gc
@@ -22,6 +28,231 @@ example :
     let g : State := { nextId := 4, nodes := ((((Store.empty.set 0 { rc := 1, traced := [1, 2] }).set 1
       { rc := 1, traced := [3] }).set 2 { rc := 1, traced := [3] }).set 3 { rc := 2 }) }
     (reset1 6 0 g).traceCalls = 4 := by decide
+
+/-! ### every walk: one `trace()` call per object, one callback per edge -/
+
+/-- number of reported edges leaving objects of `S` -/
+def edgesOf (g : State) (S : List Nat) : Nat := (S.map fun i => (g.nodes.get i).traced.length).sum
+
+/-- the bound shared by all walks: at most `c` calls per object and `c` callbacks per edge of `S`,
+    and the reported edges are left as they were (so `S` stays closed) -/
+structure WalkCost (S : List Nat) (c : Nat) (g g' : State) : Prop where
+  trace_calls_le : g'.traceCalls ≤ g.traceCalls + c * S.length
+  edge_calls_le : g'.edgeCalls ≤ g.edgeCalls + c * edgesOf g S
+  same_edges : SameEdges g g'
+
+theorem WalkCost.of_post {fμ fε : GNode → Nat} {S : List Nat} {c n : Nat} {g g' : State}
+    (hμ : ∀ x, fμ x ≤ c) (hε : ∀ x, fε x ≤ c * elen x) (h : Post fμ fε S n 0 g g') :
+    WalkCost S c g g' where
+  trace_calls_le := by have := h.cost; have := msum_le hμ S g; omega
+  edge_calls_le := by
+    have := h.ecost; have := msum_le_mul hε S g
+    have e : edgesOf g S = msum elen S g := rfl
+    rw [e]; omega
+  same_edges := h.frame.same
+
+theorem reset1_cost_le {S : List Nat} (hS : S.Nodup) (fuel s : Nat) (g : State) (hs : s ∈ S)
+    (hc : Closed g S) : WalkCost S 1 g (reset1 fuel s g) :=
+  .of_post wUnvis_le eUnvis_le (reset1_post hS fuel s g hs hc)
+
+theorem reset2_cost_le {S : List Nat} (hS : S.Nodup) (fuel s : Nat) (g : State) (hs : s ∈ S)
+    (hc : Closed g S) : WalkCost S 1 g (reset2 fuel s g) :=
+  .of_post wVis_le eVis_le (reset2_post hS fuel s g hs hc)
+
+theorem markGray_cost_le {S : List Nat} (hS : S.Nodup) (fuel s : Nat) (g : State) (hs : s ∈ S)
+    (hc : Closed g S) : WalkCost S 1 g (markGray fuel s g) :=
+  .of_post wNonGray_le eNonGray_le (markGray_post hS fuel s g hs hc)
+
+/-- `scan` may walk an object twice (once whitening it, once re-blackening it), never more -/
+theorem scan_cost_le {S : List Nat} (hS : S.Nodup) (fuel s : Nat) (g : State) (hs : s ∈ S)
+    (hc : Closed g S) : WalkCost S 2 g (scan fuel s g) :=
+  .of_post wScan_le eScan_le (scan_post hS fuel s g hs hc)
+
+theorem scanBlack_cost_le {S : List Nat} (hS : S.Nodup) (fuel s : Nat) (g : State) (hs : s ∈ S)
+    (hc : Closed g S) (hb : (g.nodes.get s).color ≠ .black) :
+    WalkCost S 2 g (scanBlack fuel s g) :=
+  .of_post wScan_le eScan_le (scanBlack_post hS fuel s g hs hc hb)
+
+theorem collectWhite_cost_le {S : List Nat} (hS : S.Nodup) (fuel s : Nat) (g : State)
+    (w : List Nat) (hs : s ∈ S) (hc : Closed g S) :
+    WalkCost S 1 g (collectWhite fuel s (g, w)).1 :=
+  .of_post wWhite_le eWhite_le (collectWhite_post hS fuel s (g, w) hs hc).1
+
+/-- `display_graph` (run on every pass) changes nothing but the counters -/
+theorem displayGraph_cost_le {S : List Nat} (hS : S.Nodup) (fuel : Nat) (stack : List Nat)
+    (g : State) (hst : ∀ t ∈ stack, t ∈ S) (hc : Closed g S) :
+    WalkCost S 1 g (displayGraph fuel stack Store.empty g) := by
+  have h := displayGraph_post hS fuel stack Store.empty g hst hc
+  have e1 : (S.map (dgW Store.empty)).sum ≤ 1 * S.length := sum_map_le_mul fun i => by simp [dgW]
+  have e2 : (S.map (dgE g.nodes Store.empty)).sum = edgesOf g S := by unfold edgesOf; congr 1
+  refine ⟨?_, ?_, fun i => by rw [h.nodes]⟩
+  · have := h.cost; omega
+  · have := h.ecost; omega
+
+/-- the diamond with a back edge 3 → 0, everything gray with matching adjustments -/
+def exDiamond : State :=
+  { nextId := 4, nodes := ((((Store.empty.set 0 { rc := 1, adj := 1, color := .gray, traced := [1, 2] }).set 1
+      { rc := 1, adj := 1, color := .gray, traced := [3] }).set 2
+      { rc := 1, adj := 1, color := .gray, traced := [3] }).set 3
+      { rc := 2, adj := 2, color := .gray, traced := [0] }) }
+
+/-- non-vacuity of the walk theorems: hypotheses hold on `exDiamond`, and `scan` makes 4 calls and
+    5 callbacks on it although `3` is reached along two paths and `0` is reached again from `3` -/
+example : [0, 1, 2, 3].Nodup ∧ Closed exDiamond [0, 1, 2, 3] ∧ 0 ∈ [0, 1, 2, 3]
+    ∧ (exDiamond.nodes.get 0).color ≠ .black
+    ∧ (scan 11 0 exDiamond).traceCalls = 4 ∧ (scan 11 0 exDiamond).edgeCalls = 5
+    ∧ edgesOf exDiamond [0, 1, 2, 3] = 5 := by
+  unfold Closed; decide
+
+/-! ### phases and one pass -/
+
+/-- `mark_roots` (display_graph, two reset walks and `mark_gray` from every candidate):
+    at most 4 `trace()` calls per object and 4 callbacks per edge, however many candidates -/
+theorem markRoots_trace_calls_le {S : List Nat} (hS : S.Nodup) (g : State)
+    (hr : ∀ r ∈ g.roots, r ∈ S) (hc : Closed g S) :
+    (markRoots g).traceCalls ≤ g.traceCalls + 4 * S.length ∧
+    (markRoots g).edgeCalls ≤ g.edgeCalls + 4 * edgesOf g S ∧
+    SameEdges g (markRoots g) ∧ (∀ r ∈ (markRoots g).roots, r ∈ g.roots) :=
+  have h := markRoots_phase hS g hr hc
+  ⟨h.1.cost, h.1.ecost, h.1.frame.same, h.2⟩
+
+/-- `scan_roots` (`scan` and two reset walks from every candidate) -/
+theorem scanRoots_trace_calls_le {S : List Nat} (hS : S.Nodup) (g : State)
+    (hr : ∀ r ∈ g.roots, r ∈ S) (hc : Closed g S) :
+    (scanRoots g).traceCalls ≤ g.traceCalls + 4 * S.length ∧
+    (scanRoots g).edgeCalls ≤ g.edgeCalls + 4 * edgesOf g S ∧
+    SameEdges g (scanRoots g) ∧ (scanRoots g).roots = g.roots :=
+  have h := scanRoots_phase hS g hr hc
+  ⟨h.1.cost, h.1.ecost, h.1.frame.same, h.2⟩
+
+/-- `collect_roots`: `collect_white` from every candidate; freeing makes no `trace()` call -/
+theorem collectRoots_trace_calls_le' {S : List Nat} (hS : S.Nodup) (g : State)
+    (hr : ∀ r ∈ g.roots, r ∈ S) (hc : Closed g S) :
+    (collectRoots g).traceCalls ≤ g.traceCalls + S.length ∧
+    (collectRoots g).edgeCalls ≤ g.edgeCalls + edgesOf g S :=
+  have h := collectRoots_trace_calls_le hS g hr hc
+  ⟨h.1, h.2.1⟩
+
+/-- freeing an object makes no `trace()` call and no callback -/
+theorem free_no_trace (g : State) (n : Nat) :
+    (free g n).traceCalls = g.traceCalls ∧ (free g n).edgeCalls = g.edgeCalls :=
+  ⟨(free_quiet g n).traceCalls, (free_quiet g n).edgeCalls⟩
+
+/-- One collection pass makes at most 9 `trace()` calls per object and 9 callbacks per edge of any
+    edge-closed set containing the candidate buffer. -/
+theorem onePass_trace_calls_le {S : List Nat} (hS : S.Nodup) (g : State)
+    (hr : ∀ r ∈ g.roots, r ∈ S) (hc : Closed g S) :
+    (onePass g).traceCalls ≤ g.traceCalls + 9 * S.length :=
+  (onePass_cost hS g hr hc).1
+
+theorem onePass_edge_calls_le {S : List Nat} (hS : S.Nodup) (g : State)
+    (hr : ∀ r ∈ g.roots, r ∈ S) (hc : Closed g S) :
+    (onePass g).edgeCalls ≤ g.edgeCalls + 9 * edgesOf g S :=
+  (onePass_cost hS g hr hc).2
+
+/-- a garbage diamond with a back edge, candidate `0` buffered purple -/
+def exGarbage : State :=
+  { nextId := 4, roots := [0],
+    nodes := ((((Store.empty.set 0
+      { rc := 1, color := .purple, buffered := true, traced := [1, 2], owned := [1, 2] }).set 1
+      { rc := 1, traced := [3], owned := [3] }).set 2
+      { rc := 1, traced := [3], owned := [3] }).set 3
+      { rc := 2, traced := [0], owned := [0] }) }
+
+/-- non-vacuity of the phase theorems: the hypotheses hold on `exGarbage`; one pass frees all four
+    objects with 32 `trace()` calls (≤ 9·4) and 40 callbacks (≤ 9·5) -/
+example : [0, 1, 2, 3].Nodup ∧ Closed exGarbage [0, 1, 2, 3]
+    ∧ (∀ r ∈ exGarbage.roots, r ∈ [0, 1, 2, 3])
+    ∧ (onePass exGarbage).traceCalls = 32 ∧ (onePass exGarbage).edgeCalls = 40
+    ∧ edgesOf exGarbage [0, 1, 2, 3] = 5
+    ∧ (onePass exGarbage).dtorLog = [3, 1, 2, 0] := by
+  unfold Closed; decide
+
+/-! ### termination: the fuel of the model is never exhausted
+
+  `WF g`: every reported edge points below `nextId`; `RootsOk g`: so does every candidate.
+  `Bounded g.nextId g` adds the same for owned references and the pending (`toBeFreed`) list, which
+  is what keeps `RootsOk` true from one pass to the next (candidates are re-filled by `dec_ref` on
+  owned references). -/
+
+/-- Walk level: a walk given more fuel than `c · |S|` (c = 1, for `scan` 2) never runs out: every
+    nested frame lowers the potential of `S`. -/
+theorem walk_fuel {fμ fε : GNode → Nat} {S : List Nat} {c n : Nat} {g g' : State}
+    (hμ : ∀ x, fμ x ≤ c) (h : Post fμ fε S n 0 g g') (hn : c * S.length < n) : g'.oof = g.oof :=
+  h.oof (by have := msum_le hμ S g; omega)
+
+theorem reset1_fuel {S : List Nat} (hS : S.Nodup) (fuel s : Nat) (g : State) (hs : s ∈ S)
+    (hc : Closed g S) (hf : S.length < fuel) : (reset1 fuel s g).oof = g.oof :=
+  walk_fuel wUnvis_le (reset1_post hS fuel s g hs hc) (by omega)
+
+theorem reset2_fuel {S : List Nat} (hS : S.Nodup) (fuel s : Nat) (g : State) (hs : s ∈ S)
+    (hc : Closed g S) (hf : S.length < fuel) : (reset2 fuel s g).oof = g.oof :=
+  walk_fuel wVis_le (reset2_post hS fuel s g hs hc) (by omega)
+
+theorem markGray_fuel {S : List Nat} (hS : S.Nodup) (fuel s : Nat) (g : State) (hs : s ∈ S)
+    (hc : Closed g S) (hf : S.length < fuel) : (markGray fuel s g).oof = g.oof :=
+  walk_fuel wNonGray_le (markGray_post hS fuel s g hs hc) (by omega)
+
+theorem scan_fuel {S : List Nat} (hS : S.Nodup) (fuel s : Nat) (g : State) (hs : s ∈ S)
+    (hc : Closed g S) (hf : 2 * S.length < fuel) : (scan fuel s g).oof = g.oof :=
+  walk_fuel wScan_le (scan_post hS fuel s g hs hc) hf
+
+theorem collectWhite_fuel {S : List Nat} (hS : S.Nodup) (fuel s : Nat) (g : State) (w : List Nat)
+    (hs : s ∈ S) (hc : Closed g S) (hf : S.length < fuel) :
+    (collectWhite fuel s (g, w)).1.oof = g.oof :=
+  walk_fuel wWhite_le (collectWhite_post hS fuel s (g, w) hs hc).1 (by omega)
+
+/-- non-vacuity: on `exDiamond`, `2·4 < 11`, and indeed `scan 11` does not run out -/
+example : 2 * [0, 1, 2, 3].length < 11 ∧ (scan 11 0 exDiamond).oof = false := by decide
+
+/-- No walk started by `mark_roots` (including its `display_graph`) runs out of the recursion
+    depth `walkFuel g = 2 * nextId + 3`. -/
+theorem markRoots_fuel (g : State) (hw : WF g) (hr : RootsOk g) : (markRoots g).oof = g.oof :=
+  markRoots_oof g hw hr
+
+theorem scanRoots_fuel (g : State) (hw : WF g) (hr : RootsOk g) : (scanRoots g).oof = g.oof :=
+  scanRoots_oof g hw hr
+
+theorem collectRoots_fuel (g : State) (hw : WF g) (hr : RootsOk g) :
+    (collectRoots g).oof = g.oof :=
+  collectRoots_oof g hw hr
+
+theorem onePass_fuel (g : State) (hw : WF g) (hr : RootsOk g) : (onePass g).oof = g.oof :=
+  onePass_oof g hw hr
+
+/-- A pass keeps the state well-formed, never un-frees, always empties the pending list, and
+    leaves the candidate buffer empty unless it freed at least one more object. -/
+theorem onePass_progress (g : State) (hb : Bounded g.nextId g) :
+    Bounded (onePass g).nextId (onePass g) ∧ (onePass g).toBeFreed = [] ∧
+    unfreed g.nextId (onePass g) ≤ unfreed g.nextId g ∧
+    ((onePass g).roots ≠ [] → unfreed g.nextId (onePass g) < unfreed g.nextId g) := by
+  have h := onePass_pass g g.nextId rfl hb
+  refine ⟨by rw [h.nextId]; exact h.bounded, h.tbf, h.unfreed_le, fun hne => ?_⟩
+  exact Nat.lt_of_le_of_ne h.unfreed_le (fun he => hne (h.prog he))
+
+/-- `collect_cycles` terminates: the loop bound `nextId + 2` and all walk bounds suffice. -/
+theorem collectCycles_terminates (g : State) (hb : Bounded g.nextId g) :
+    (collectCycles g).oof = g.oof :=
+  (collectCycles_post g hb).1
+
+/-- Total cost of `collect_cycles`: at most (unfreed objects + 1) passes, each at most 9 `trace()`
+    calls per allocated object and 9 callbacks per reported edge. -/
+theorem collectCycles_trace_calls_le (g : State) (hb : Bounded g.nextId g) :
+    (collectCycles g).traceCalls ≤ g.traceCalls + (unfreed g.nextId g + 1) * (9 * g.nextId) :=
+  (collectCycles_post g hb).2.1
+
+theorem collectCycles_edge_calls_le (g : State) (hb : Bounded g.nextId g) :
+    (collectCycles g).edgeCalls ≤ g.edgeCalls + (unfreed g.nextId g + 1) * (9 * totalEdges g) :=
+  (collectCycles_post g hb).2.2
+
+/-- non-vacuity: `exGarbage` is well-formed; collecting it takes two passes (the second finds the
+    candidates re-buffered by the destructors already freed) and 56 `trace()` calls in total,
+    within the bound (4 + 1) · 9 · 4 = 180 -/
+example : Bounded exGarbage.nextId exGarbage := Bounded.of_finite _ _ (by decide) (by decide) (by decide)
+example : WF exGarbage ∧ RootsOk exGarbage :=
+  Bounded.wf (Bounded.of_finite _ _ (by decide) (by decide) (by decide))
+example : (collectCycles exGarbage).oof = false ∧ (collectCycles exGarbage).traceCalls = 56
+    ∧ unfreed exGarbage.nextId exGarbage = 4 ∧ (collectCycles exGarbage).roots = [] := by decide
 
 end Gc
 end SodiumVerif
